@@ -132,6 +132,8 @@ def _parse_indep(bs):
     s = io.BytesIO(bs)
 
     def rd(n):
+        if n > len(bs):
+            raise ValueError
         b = s.read(n)
         if len(b) != n:
             raise ValueError
@@ -148,6 +150,8 @@ def _parse_indep(bs):
     cmds = []
 
     def rb(n):
+        if n > len(body):
+            raise ValueError
         x = b.read(n)
         if len(x) != n:
             raise ValueError
